@@ -128,7 +128,8 @@ def build_world(spec: dict) -> World:
                 so = R["ExecutionStrategy"](
                     resources=Resources(resource_vector={Resource(name=n, _id="any"): q for n, q in s["req"]}),
                     batch_size=1,
-                    runtime=US(s["runtime"]),
+                    # the same duration given in another unit (mixed units inside one profile)
+                    runtime=EventTime(int(s["runtime"]) // 1000, EventTime.Unit.MS) if s.get("rt_ms") else US(s["runtime"]),
                 )
                 w.sid[id(so)] = sid
                 w.strat_spec[sid] = None  # filled from the real object in `strat_json`
@@ -823,6 +824,27 @@ def gen_world(rng, kind: str, policy: str | None = None, widened: bool = False) 
                 t["unsched"] = {"w": r2.randrange(len(order)), "s": r2.choice(fast), "time": r2.randint(t["release"], now)}
     if r2.random() < 0.3:
         world["round2"] = True
+    if r2.random() < 0.2:
+        # the same world on a 1000x time scale, with some runtimes / deadlines written in milliseconds: a profile
+        # then mixes units (e.g. 3 ms next to 4000 us), which must not change any decision
+        world["now"] = now * 1000
+        for g in graphs:
+            for t in g["tasks"]:
+                t["release"] *= 1000
+                t["deadline"] *= 1000
+                if t["deadline"] >= 0 and r2.random() < 0.5:
+                    t["dl_ms"] = True
+                else:
+                    t.pop("dl_ms", None)
+                for s_ in t["strats"]:
+                    s_["runtime"] *= 1000
+                    if r2.random() < 0.5:
+                        s_["rt_ms"] = True
+                for k_ in ("prev", "unsched"):
+                    if t.get(k_):
+                        for f_ in ("time", "remaining", "finish"):
+                            if f_ in t[k_]:
+                                t[k_][f_] *= 1000
     return world
 
 
